@@ -9,7 +9,7 @@ ID = "C18"
 _SCRATCH = os.path.join(core.RUNS_ROOT, ID, "files")
 STAGES = [
     # the deciding variant: ASan + UBSan + float-cast-overflow, assertions on
-    Stage("gridgen-asan", "p18_gridgen", "asan", {"quick": 900, "thorough": 60000},
+    Stage("gridgen-asan", "p18_gridgen", "asan", {"quick": 900, "thorough": 40000},
           args={"scratch": _SCRATCH, "setup_nodes": 2500}, timeout_per_case=120.0),
     # -O2 build, assertions on: other code generation, larger setup() grids
     Stage("gridgen-plain", "p18_gridgen", "plain", {"quick": 300, "thorough": 20000},
@@ -45,7 +45,7 @@ THRESHOLDS = {
     "roundtrip_excess_error": 64.0,           # (|loaded - written| - 0.5*10^-precision)_+ / (eps max(|x|, 10^-precision))
     "damaged_file_grid_is_valid": 0.5,
 }
-MIN_NONTRIVIAL = {"quick": 60, "thorough": 250}
+MIN_NONTRIVIAL = {"quick": 100, "thorough": 300}
 RULE = ("one case = one tuple from VERIF_SEED: Rmax in {1, 1.3, 2} or log-uniform 0.05..50, R0 = 1e-5 / (1e-8..0.95)*Rmax "
         "(3% invalid: R0 >= Rmax, R0 <= 0, R0 ~ Rmax), nr_exp 0..8, ntheta_exp -1..9, anisotropic_factor -1..7, divideBy2 0..3 "
         "(30% of the cases from a small range so that GMGPolar::setup() is run), maxLevels -1..8, refinement radius in 8 "
